@@ -4685,7 +4685,7 @@ def unpickle_entity(d):
         attr = entity._adict_[attrname]
         if attr.pk_offset is not None: continue
         avdict[attr] = val
-    obj._db_set_(avdict, unpickling=True)
+    if avdict: obj._db_set_(avdict, unpickling=True)  # an object pickled as a bare key stays a seed: its real class is not known yet
     return obj
 
 def safe_repr(obj):
